@@ -235,7 +235,7 @@ impl<'a, const BITS: usize, const LIMBS: usize> FromSql<'a> for Uint<BITS, LIMBS
             // Hex strings
             Type::JSON | Type::JSONB => {
                 let raw = if *ty == Type::JSONB {
-                    if raw[0] == 1 {
+                    if raw.first() == Some(&1) {
                         &raw[1..]
                     } else {
                         // Unsupported version
@@ -245,7 +245,7 @@ impl<'a, const BITS: usize, const LIMBS: usize> FromSql<'a> for Uint<BITS, LIMBS
                     raw
                 };
                 let str = from_utf8(raw)?;
-                let str = if str.starts_with('"') && str.ends_with('"') {
+                let str = if str.len() >= 2 && str.starts_with('"') && str.ends_with('"') {
                     // Stringified number
                     &str[1..str.len() - 1]
                 } else {
